@@ -603,9 +603,11 @@ func zvRandPolicy(rng interface {
 			r.Intentions = []string{"deny", "read", "write"}[rng.Intn(3)]
 		}
 		id := fmt.Sprint(r.Kind, r.Prefix, r.Name)
-		if seen[id] {
+		if seen[id] && !rng.Chance(40) {
 			continue
 		}
+		// (a repeated block for the same name inside one policy document is legal HCL for consul; the
+		// precedence between the repeated rules is the one between policies)
 		seen[id] = true
 		p.Rules = append(p.Rules, r)
 	}
